@@ -63,6 +63,9 @@ def main():
             seen = set()
             for r in results:
                 for fd in r.findings:
+                    from vstat.core import caller_aliases
+                    if pid in fd.props and fd.key not in known and any(k in known for k in caller_aliases(P, fd)):
+                        continue
                     if pid in fd.props and fd.key not in known and fd.key not in seen:
                         seen.add(fd.key)
                         print("FINDING %s %s:%d %s" % (fd.key, fd.file, fd.line, fd.msg))
@@ -76,7 +79,7 @@ def main():
             for c in controls:
                 print("CONTROL %s: %s%s" % (c["control"], c["status"],
                                             (" by " + ", ".join(c["by"]) if isinstance(c.get("by"), list) else (" " + str(c.get("by") or c.get("why") or "")))))
-        rc = decide(pid, results, tier, t0, controls=controls)
+        rc = decide(pid, results, tier, t0, controls=controls, P=P)
         if rc == 0 and controls:
             applied = [c for c in controls if c["status"] != "skipped"]
             if applied and all(c["status"] == "missed" for c in applied):
